@@ -245,7 +245,10 @@ def gen_cli_case(r, idx, quick):
         opts["large_file"] = True
     tf = r.choice(TEMPLATES[:5] + ["%S", "%S"])
     pf = r.choice(["{id} {start} {end}", "{id} {start} {end} {duration}", "{duration}|{id}", "[{id}]\\t{start} -> {end}", "{end} {start}",
-                   "{id}: {start} \u2192 {end} (dur\u00e9e {duration} s, \u00b5)", "\u65e5\u672c {id} {start}\\t{end} \u00df"])
+                   "{id}: {start} \u2192 {end} (dur\u00e9e {duration} s, \u00b5)", "\u65e5\u672c {id} {start}\\t{end} \u00df",
+                   "{id} {start} {end} @{timestamp}", "{id} {start} {end} |{timestamp:>8}|", "{timestamp!s}: {id} {duration}"])
+    if "{timestamp" in pf:
+        opts["timestamp_format"] = "%Y"          # the one stable field of the wall clock
     if tf != "%S" or r.random() < 0.3:
         opts["time_format"] = tf
     if pf != "{id} {start} {end}" or r.random() < 0.3:
@@ -253,6 +256,10 @@ def gen_cli_case(r, idx, quick):
     extras = r.choice(["", "", "", "quiet", "save_regions", "save_stream", "join", "join_without_stream", "save_stream"])
     return dict(idx=idx, rate=rate, w=w, ch=ch, W=W, aw=aw, data=data, pattern=pattern, kind=kind, opts=opts, tf=tf, pf=pf, extras=extras,
                 eth=eth, uc=uc, mr=mr, jsil=r.choice([0.0, 0.5 * aw, aw, 2.5 / rate, 0.1]), spell=r.randrange(1 << 30))
+
+
+import time as _time_mod
+YEAR = _time_mod.strftime("%Y")
 
 
 def gen_default_case(r, idx):
@@ -545,7 +552,7 @@ def run(prop, tier):
             pf = cs["pf"].replace("\\t", "\t")
             want_lines = []
             for k, (dd, s, e, st, en, du) in enumerate(mo[1]):
-                want_lines.append(pf.format(id=k + 1, start=render(cs["tf"], st), end=render(cs["tf"], en), duration=render(cs["tf"], du)))
+                want_lines.append(pf.format(id=k + 1, start=render(cs["tf"], st), end=render(cs["tf"], en), duration=render(cs["tf"], du), timestamp=YEAR))
             hist["lines"] += len(want_lines)
             got_lines = ob["stdout"].split("\n")
             if got_lines and got_lines[-1] == "":
@@ -668,6 +675,6 @@ def _real_split_lines(cs, pf):
         if cs["mr"] is not None:
             kw["max_read"] = cs["mr"]
         f = make_duration_formatter(cs["tf"])
-        return [pf.format(id=k + 1, start=f(x.meta.start), end=f(x.meta.end), duration=f(x.duration)) for k, x in enumerate(auditok.split(cs["data"], **kw))]
+        return [pf.format(id=k + 1, start=f(x.meta.start), end=f(x.meta.end), duration=f(x.duration), timestamp=YEAR) for k, x in enumerate(auditok.split(cs["data"], **kw))]
     except Exception:
         return None
